@@ -102,6 +102,8 @@ def wrap_resource(env, source, op):
     """Wrap in an XMLResource when the op asks for a lazy resource."""
     import xmlschema
     lazy = op.get('lazy', 0)
+    if op.get('defuse'):
+        return xmlschema.XMLResource(source, defuse=op['defuse'], lazy=(True if lazy == 1 else lazy) if lazy else False)
     if not lazy:
         return source
     return xmlschema.XMLResource(source, lazy=True if lazy == 1 else lazy,
